@@ -126,8 +126,11 @@ def jsonable(x):
 def _worker(args, in_child=True):
     func, item = args
     st = fresh_stats() if in_child else Stats()
+    t0 = time.time()
     try:
         res = func(item)
+        if time.time() - t0 > float(os.environ.get("VF_SLOW", "60")):
+            print(f"SLOW-ITEM {time.time() - t0:.0f}s {getattr(func, '__name__', func)} {str(item)[:200]}", flush=True)
         return ("ok", res, copy.deepcopy(st) if in_child else st)
     except Inconclusive as e:
         return ("inconclusive", f"{item!r}: {e}", copy.deepcopy(st) if in_child else st)
